@@ -5,6 +5,7 @@ open FlacVerif
 #print axioms C01_residual_search
 #print axioms C01_diffs_fixed
 #print axioms C01_computeError
+#print axioms C01_fitsResidual64
 #print axioms C01_subframe_strict'
 #print axioms C01_subframe_strict
 #print axioms C01_subframe_strict_nolpc
@@ -16,4 +17,4 @@ open FlacVerif
 #print axioms Strict.readFrame_eq
 #print axioms Strict.frameLoop_eq
 #print axioms Strict.analyzeRec_eq
-#print axioms C01StrictEx.C01_LpcFits_needed
+#print axioms C01StrictEx.C01_flag_needed
